@@ -155,7 +155,8 @@ def _idxs(idx):
 # ------------------------------------------------------------------ NF-KERNEL
 
 
-def make_param(ex, tab, mode, qlen=None):
+def make_param(ex, tab, mode, qlen=None, only=None):
+    """only: give the odd length qlen to this component alone (the others have the data's width)"""
     if mode == "optim":
         return []
     comps = []
@@ -164,24 +165,25 @@ def make_param(ex, tab, mode, qlen=None):
             v = Num(sym(c), (), "float", "number", meta={"role": c})
             ex.atom_shapes[Atom("sym", c).key] = ()
         else:
+            ql = qlen if (only is None or only == c) else None
             if c == "cov":
-                shape = (Pdim, Pdim) if qlen is None else (qlen, qlen)
+                shape = (Pdim, Pdim) if ql is None else (ql, ql)
             else:
-                shape = (Pdim,) if qlen is None else (qlen,)
+                shape = (Pdim,) if ql is None else (ql,)
             v = Num(sym(c), shape, "float", "ndarray", meta={"role": c, "foreign": True})
             ex.atom_shapes[Atom("sym", c).key] = shape
         comps.append(v)
     return [comps[0]] if len(comps) == 1 else [TupleV(comps)]
 
 
-def scenario(ctx, cls, tab, mode, qlen=None):
+def scenario(ctx, cls, tab, mode, qlen=None, only=None):
     ex = new_executor(ctx)
     state = {}
 
     def thunk(ex):
         X = data_sym(ex)
         cuts = cuts_sym(ex, 2)
-        obj = ex.new_object(cls, make_param(ex, tab, mode, qlen), {})
+        obj = ex.new_object(cls, make_param(ex, tab, mode, qlen, only), {})
         state["obj"] = obj
         # history: the same object was fitted on other data of the same size and evaluated before
         call_method(ex, obj, "fit", data_sym(ex, "X0"))
@@ -508,12 +510,20 @@ def check_param_validation(ctx, cls, tab):
 
     c1 = Cond.cmp("!=", q, NF.const(1))
     cp = Cond.cmp("!=", q, lift(Pdim))
-    wrong = guard_outcomes(paths, lambda c: same_set(c, "and", [c1, cp]))
-    if not wrong:
-        ctx.violation(rule, f"{cls.name}|length", loc, "no guard of the form len(param) != 1 and len(param) != X.shape[1] on the fit path")
-    for p in wrong[:1]:
+    # one component at a time has the odd length q (the others are valid), so that every component's own guard is exercised
+    for comp in tab["components"]:
+        if comp == "cov":
+            continue  # shape (q, q) of a covariance: decided below (cov-shape)
+        _ex, cpaths, _st = scenario(ctx, cls, tab, "fixed-array", qlen=q, only=comp)
+        wrong = guard_outcomes(cpaths, lambda c: same_set(c, "and", [c1, cp]))
+        if not wrong:
+            ctx.violation(rule, f"{cls.name}|{comp}|length", loc, f"no guard of the form len({comp}) != 1 and len({comp}) != X.shape[1] on the fit path: a {comp} of the wrong length reaches the kernel")
+            continue
         ok = all(x.outcome == "raise" and x.exc.exc_name == "ValueError" for x in wrong)
-        ctx.check(ok, rule, f"{cls.name}|length", raise_loc(p, loc), "a mean/variance of length other than 1 or p is rejected with ValueError", found=[(x.exc.exc_name if x.outcome == "raise" else "accepted") for x in wrong], expected="ValueError")
+        ctx.check(ok, rule, f"{cls.name}|{comp}|length", raise_loc(wrong[0], loc), f"a {comp} of length other than 1 or p is rejected with ValueError", found=[(x.exc.exc_name if x.outcome == "raise" else "accepted") for x in wrong], expected="ValueError")
+        # and nothing else is rejected on account of the length: returning paths exist for q == 1 and q == p
+        acc = [x for x in cpaths if x.outcome == "return"]
+        ctx.check(bool(acc), rule, f"{cls.name}|{comp}|length-accepts", loc, f"a {comp} of length 1 or p is accepted", found=f"{len(acc)} returning paths", nontrivial=False)
     # non-positive variance / non-PD covariance
     if "var" in tab["components"]:
         pred = lambda c: c.t[0] == "any" and is_cmp(c.t[1], ("<=0",), sym("var"))  # noqa: E731
@@ -525,10 +535,47 @@ def check_param_validation(ctx, cls, tab):
         hit = guard_outcomes(paths, pred)
         ok = bool(hit) and all(x.outcome == "raise" and x.exc.exc_name == "ValueError" for x in hit)
         ctx.check(ok, rule, f"{cls.name}|cov-pd", raise_loc(hit[0], loc) if hit else loc, "a covariance with a non-positive eigenvalue raises ValueError", found=f"{len(hit)} paths; outcomes {[x.outcome for x in hit]}", expected="guard not all(eigvals(cov) > 0) followed by raise ValueError")
-        cq = Cond.cmp("!=", q, lift(Pdim))
-        hit = guard_outcomes(paths, lambda c: same_set(c, "or", [cq]))
+        # a (q, r) covariance: both dimensions are compared with p
+        r_ = sym("r")
+        exs = new_executor(ctx)
+
+        def thunk_shape(ex):
+            X = data_sym(ex)
+            comps = []
+            for c in tab["components"]:
+                shape = (q, r_) if c == "cov" else (Pdim,)
+                v = Num(sym(c), shape, "float", "ndarray", meta={"role": c, "foreign": True})
+                ex.atom_shapes[Atom("sym", c).key] = shape
+                comps.append(v)
+            obj = ex.new_object(cls, [comps[0]] if len(comps) == 1 else [TupleV(comps)], {})
+            return call_method(ex, obj, "fit", X)
+
+        spaths = run(ctx, exs, thunk_shape)
+        cq, cr = Cond.cmp("!=", q, lift(Pdim)), Cond.cmp("!=", r_, lift(Pdim))
+        hit = guard_outcomes(spaths, lambda c: same_set(c, "or", [cq, cr]))
         ok = bool(hit) and all(x.outcome == "raise" and x.exc.exc_name == "ValueError" for x in hit)
-        ctx.check(ok, rule, f"{cls.name}|cov-shape", raise_loc(hit[0], loc) if hit else loc, "a covariance whose shape is not (p, p) raises ValueError", found=f"{len(hit)} paths; outcomes {[x.outcome for x in hit]}")
+        ctx.check(ok, rule, f"{cls.name}|cov-shape", raise_loc(hit[0], loc) if hit else loc, "a covariance whose shape is not (p, p) raises ValueError (both dimensions are compared with p)", found=f"{len(hit)} paths; guards {sorted({repr(c)[:80] for x in spaths for c, v in x.facts if 'p' in repr(c) and ('q' in repr(c) or 'r' in repr(c))})[:3]}", expected="cov.shape[0] != p or cov.shape[1] != p")
+        # a covariance that is not 2-D: ValueError (not an IndexError from cov.shape[1])
+        exn = new_executor(ctx)
+
+        def thunk_ndim(ex):
+            X = data_sym(ex)
+            comps = []
+            for c in tab["components"]:
+                shape = None if c == "cov" else (Pdim,)
+                v = Num(sym(c), shape, "float", "ndarray", meta={"role": c, "foreign": True})
+                comps.append(v)
+            obj = ex.new_object(cls, [comps[0]] if len(comps) == 1 else [TupleV(comps)], {})
+            return call_method(ex, obj, "fit", X)
+
+        try:
+            npaths = run(ctx, exn, thunk_ndim)
+        except Undecided as u:
+            npaths = getattr(u, "partial_paths", None) or []
+        nd = lambda c: c.t[0] == "cmp" and any(a.kind == "app" and a.args[0] == "ndim" for a in atoms_of(c.t[2]).values())  # noqa: E731
+        hitn = [x for x in npaths if any(nd(c) for c, v in x.facts) and x.outcome == "raise"]
+        okn = bool(hitn) and all(x.exc.exc_name == "ValueError" for x in hitn) and not any(x.outcome == "raise" and x.exc.exc_name != "ValueError" for x in npaths)
+        ctx.check(okn, rule, f"{cls.name}|cov-ndim", raise_loc(hitn[0], loc) if hitn else loc, "a covariance that is not 2-dimensional raises ValueError", found=sorted({(x.outcome, x.exc.exc_name if x.exc else "") for x in npaths})[:4], expected="a guard on cov.ndim followed by raise ValueError")
     # any raise on the validation path is a ValueError
     for p in paths:
         if p.outcome == "raise" and p.exc.func is not None and p.exc.func.name.startswith("check_") and p.exc.exc_name != "ValueError":
